@@ -286,6 +286,9 @@ def run(ctx):
         run_mutants(ctx, name)
     run_lexer_rules(ctx)
     run_string_rules(ctx)
+    # every f-string error exit: the scanner mirror (FStringScan.tla) predicts the outcome of every body over its alphabet
+    from checks import c07
+    c07.run_scan(ctx)
     need = {"bracket.mismatched", "bytes.mixed", "bytes.non_ascii", "call.duplicate_keyword", "call.positional_after_keyword", "call.star_after_dstar", "char.unstartable",
             "continuation.junk", "dstar.parenthesised", "star.parenthesised", "fstr.bad_conversion", "fstr.empty", "fstr.invalid_expression", "fstr.mismatched",
             "fstr.nested_too_deeply", "fstr.single_rbrace", "fstr.unclosed", "fstr.unmatched", "fstr.unterminated_string", "num.bad_digit", "num.double_underscore",
@@ -305,6 +308,9 @@ def replay(ctx, rec):
     c = rec["case"]
     ctx.states = ctx.transitions = 1
     h = ctx.harness("default")
+    if c["fam"] == "scan":
+        from checks import c07
+        return c07.replay_scan(ctx, c, h)
     if c["fam"] == "mut":
         resp = h.run([c["request"]])[0]
         ctx.replayed += 1
